@@ -2152,6 +2152,7 @@ static void run_line(char *line)
         emit_begin(&g_out, "Reset", NULL);
         sb_printf(&g_out, ",\"tag\":\"%s\"", ntok > 1 ? tok[1] : "");
         emit_end(&g_out);
+        fflush(g_trace);        /* a later crash must not lose the episodes that ended well */
     }
     else
     {
